@@ -50,13 +50,12 @@ def check(repo, col, tier):
     c08._pairing(repo, col, "R-C11-pairing")
 
 
-def _basestate(repo, col):
+def _basestate(repo, col, R="R-C11-basestate"):
     """A view holds SNAPSHOTS of the module's registries (groups, channels, synapses, recordings, externals, ... --
     whatever View.__init__ assigns on self), taken when the view was created.  A method that updates the registry
     of the base module must decide on the base's CURRENT registry: a guard that consults the snapshot (`self.groups`
     instead of `self.base.groups`) takes the 'new entry' branch for a view created earlier and overwrites what other
     views added meanwhile."""
-    R = "R-C11-basestate"
     vi = repo.method("View", "__init__")
     exv = idx.expander(repo, vi)
     snap = {s.key.name for s in exv.stores if s.kind == "attr" and s.base.op == "param" and s.base.name == "self"}
@@ -75,6 +74,7 @@ def _basestate(repo, col):
         return None
 
     n = 0
+    n_acc = []
     from . import common
     cg = common._callgraph(repo)
     ctor_only = set()
@@ -92,7 +92,40 @@ def _basestate(repo, col):
                 continue
             reg = base_registry(s_.base) or (s_.key.name if s_.kind == "attr" and s_.base.op == "attr" and s_.base.name == "base"
                                              and _is_self(s_.base.args[0]) else None)
-            if reg not in snap or not s_.guards:
+            if reg not in snap:
+                continue
+            # an update that EXTENDS the registry entry (union / concatenation with what is there) must extend the base's
+            # current entry: the view's snapshot holds only the part of it that lies inside the view
+            val = s_.value
+            if val is not None:
+                stale_ops, accs = [], 0
+                for x in val.walk():
+                    acc = (x.op in ("mcall", "call") and x.name in ("concatenate", "union1d", "hstack", "append", "concat", "union")) or \
+                          (x.op == "binop" and x.name in ("+", "|"))
+                    if not acc:
+                        continue
+                    ops = []
+                    for a_ in (x.args[1:] if x.op == "mcall" else x.args):
+                        ops += list(a_.args) if a_.op in ("list", "tuple") else [a_]
+                    if x.op == "mcall":
+                        ops.append(x.args[0])
+                    roots = []
+                    for o in ops:
+                        cur = o
+                        while cur.op in ("mcall", "call", "sub") and cur.args and (cur.op != "call" or cur.name in ("list", "asarray", "array")):
+                            cur = cur.args[-1] if cur.op == "call" else cur.args[0]
+                        roots.append((o, cur))
+                    # only accumulations ONTO the registry (one operand is the registry's entry, of the base or of the view)
+                    if any(c.op == "attr" and c.name == reg for _o, c in roots):
+                        accs += 1
+                        stale_ops += [o for o, c in roots if c.op == "attr" and c.name == reg and _is_self(c.args[0])]
+                if accs:
+                    n_acc.append(1)
+                    col.check(not stale_ops, R, m, f"{m.name}: `{unparse(s_.node)[:50]}` extends the base's current entry of {reg}",
+                              f"accumulates onto self.base.{reg}",
+                              f"the new value of `self.base.{reg}` is built from `{stale_ops[0].short(50) if stale_ops else ''}`, the view's own "
+                              f"(filtered) copy of the registry: the members that lie outside this view are dropped from the entry", node=s_.node)
+            if not s_.guards:
                 continue
             n += 1
             stale = None
